@@ -213,27 +213,36 @@ def r03b(model, ctx):
     ctx.check(found, R, "_FragmentCompiler:reset-block", "if rst: next_i = init for every non-reset_less signal",
               "the simulator's reset block must load signal.init under `if <rst>:` for exactly the signals that are not "
               "reset_less", f"{PYRTL}:{fn.lineno}")
-    fd = model.func(f"{IR}::NetlistEmitter.emit_drivers")
-    sync_if = [s for s in ast.walk(fd) if isinstance(s, ast.If) and any(
-        isinstance(x, ast.Call) and unparse(x.func) == "driver.assignments.append" for x in ast.walk(s))]
-    ok = len(sync_if) == 1
-    if ok:
-        t = unparse(sync_if[0].test)
-        ok = all(x in t for x in ["driver.domain is not None", "driver.domain.rst is not None",
-                                  "not driver.domain.async_reset", "not driver.signal.reset_less"])
-    ctx.check(ok, R, "emit_drivers:sync-reset", "appended iff domain has rst, is not async_reset and signal is not reset_less",
+    # netlist side, on the view of emit_drivers that is indifferent to helper extraction and hoisted conditions: the full
+    # path condition (conjunction of the enclosing `if` tests) of the two reset constructs, as sets of conjuncts
+    from ..engine.astutil import parent_map, path_condition
+    from ..engine.bitalg import conjuncts
+    fd = model.func_view(f"{IR}::NetlistEmitter.emit_drivers", depth=3)
+    pm = parent_map(fd)
+
+    def req(*srcs):
+        return conjuncts([(ast.parse(x, mode="eval").body, True) for x in srcs])
+    apps = [x for x in ast.walk(fd) if isinstance(x, ast.Expr) and isinstance(x.value, ast.Call) and
+            unparse(x.value.func) == "driver.assignments.append"]
+    need(len(apps) == 1, "emit_drivers: the synchronous reset assignment (driver.assignments.append) was not found")
+    got = conjuncts(path_condition(pm, apps[0], fd))
+    want = req("driver.domain is not None", "driver.domain.rst is not None", "not driver.domain.async_reset",
+               "not driver.signal.reset_less")
+    ctx.check(got == want, R, "emit_drivers:sync-reset", "appended iff domain has rst, is not async_reset and signal is not reset_less",
               "the synchronous reset assignment must be appended exactly when the domain has a reset, is not async_reset "
               "and the signal is not reset_less", f"{IR}:{fd.lineno}")
-    arst_if = [s for s in ast.walk(fd) if isinstance(s, ast.If) and any(
-        isinstance(x, ast.Assign) and unparse(x.targets[0]) in ("arst,", "(arst,)") for x in s.body)]
-    ok = len(arst_if) == 1
-    if ok:
-        t = unparse(arst_if[0].test)
-        ok = all(x in t for x in ["driver.domain.rst is not None", "driver.domain.async_reset", "not driver.signal.reset_less"]) \
-            and "not driver.domain.async_reset" not in t and \
-            any(unparse(x) == "arst = _nir.Net.from_const(0)" for x in arst_if[0].orelse) and \
-            unparse(arst_if[0].body[0].value) == "self.emit_signal(driver.domain.rst)"
-    ctx.check(ok, R, "emit_drivers:async-reset", "arst = domain.rst iff async_reset and not reset_less, else const 0",
+    arsts = [x for x in ast.walk(fd) if isinstance(x, ast.Assign) and unparse(x.targets[0]) in ("arst,", "(arst,)", "arst")]
+    real = [x for x in arsts if unparse(x.value) == "self.emit_signal(driver.domain.rst)"]
+    zero = [x for x in arsts if unparse(x.value) == "_nir.Net.from_const(0)"]
+    need(len(arsts) == 2 and len(real) == 1 and len(zero) == 1,
+         f"emit_drivers: the two assignments of the flip-flop's arst were not found ({[unparse(x) for x in arsts]})")
+    got = conjuncts(path_condition(pm, real[0], fd))
+    want = req("driver.domain is not None", "driver.domain.rst is not None", "driver.domain.async_reset", "not driver.signal.reset_less")
+    # the constant-0 assignment is the other arm of the innermost test
+    p_real, p_zero = path_condition(pm, real[0], fd), path_condition(pm, zero[0], fd)
+    arms = len(p_real) == len(p_zero) and p_real[:-1] == p_zero[:-1] and p_real[-1][0] is p_zero[-1][0] and \
+        p_real[-1][1] != p_zero[-1][1]
+    ctx.check(got == want and arms, R, "emit_drivers:async-reset", "arst = domain.rst iff async_reset and not reset_less, else const 0",
               "the flip-flop's arst must be the domain's rst exactly when the domain is async_reset (with a reset) and the "
               "signal is not reset_less, and constant 0 otherwise", f"{IR}:{fd.lineno}")
     # the match on rst is for value 1
